@@ -331,6 +331,10 @@ def nmea_any(rng, serial=None):
     if rng.random() < 0.03:
         return nmea_long(rng)
     firsts = nmea_first_letters()
+    if rng.random() < 0.02:
+        # degenerate but LF-terminated lines behind a recognised header
+        first = rng.choice(firsts)
+        return b"$" + first + rng.choice((b"\n", b"\r\n", b"P\r\n", b"PG\n", b"*\r\n", b",\r\n", b"*00\r\n")), "nmea degenerate short line"
     if rng.random() < 0.2:
         tmpl = rng.choice(_NMEA_PROP)
         if b"P" not in firsts:
@@ -366,6 +370,19 @@ def nmea_any(rng, serial=None):
         pos = rng.randrange(3, len(content) + 1)
         content = content[:pos] + bytes((rng.choice((0x80, 0xB5, 0xD3, 0xFF, 0x00, 0x24)),)) + content[pos:]
         note += " +nonascii"
+    elif oddity < 0.095:  # valid multi-byte UTF-8 (degree sign, micro sign, accented letter) in header, body or checksum field
+        ch = rng.choice((b"\xc2\xb0", b"\xc2\xb5", b"\xc3\xa9", b"\xe2\x82\xac"))
+        where = rng.randrange(3)
+        if where == 0:
+            content = content[:2] + ch + content[2:]
+        elif where == 1:
+            pos = rng.randrange(3, len(content) + 1)
+            content = content[:pos] + ch + content[pos:]
+        else:
+            return b"$" + content + b"*" + ch + b"\r\n", note + " +utf8 in checksum"
+        note += " +utf8"
+        if rng.random() < 0.5:  # and rejected: the rejection's text quotes the odd characters
+            return b"$" + content + b"*00\r\n", note + " badck"
     elif oddity < 0.10:  # empty most fields
         parts = content.split(b",")
         content = b",".join(parts[:1] + [b"" for _ in parts[1:]])
@@ -394,7 +411,31 @@ def nmea_any(rng, serial=None):
         return b"$" + content + b"\r\n", note + " nostar"
     if rng.random() < 0.03:
         return b"$" + content + b"*" + wire.nmea_cksum(content) + b"\n", note + " lfonly"
+    if rng.random() < 0.03:
+        # a capture that went through a text-mode conversion, or a padded terminator: still one LF-terminated line
+        term = rng.choice((b"\r\r\n", b"\r\r\n", b" \r\n", b"\r\r\r\n", b"\t\r\n"))
+        return b"$" + content + b"*" + wire.nmea_cksum(content) + term, note + " odd terminator"
     return wire.nmea_sentence(content), note
+
+
+def nmea_quoted_in_rejection(rng):
+    """
+    A sentence the NMEA parser rejects with a text that quotes what stood on the wire: valid multi-byte
+    UTF-8 in the sentence id or in the checksum field, wrong checksum.  (A receiver sending Latin-1 or
+    UTF-8 text in proprietary sentences, or line noise that happens to be valid UTF-8.)
+    """
+    ch = rng.choice((b"\xc2\xb0", b"\xc2\xb5", b"\xc3\x84", b"\xc3\xa9", b"\xe2\x82\xac", b"\xf0\x9f\x9b\xb0"))
+    first = rng.choice(nmea_first_letters())
+    body = rng.choice((b",172809.456,12,07,1996,00,00", b",1,2,3", b"", b",A"))
+    style = rng.randrange(3)
+    if style == 0:
+        content = first + b"PZD" + ch + body
+        return b"$" + content + b"*00\r\n", "nmea utf8 in id, wrong checksum"
+    if style == 1:
+        content = first + b"PGLL" + body
+        return b"$" + content + b"*" + ch + b"\r\n", "nmea utf8 as checksum"
+    content = first + b"P" + ch + b"A" + body + b"," + ch
+    return b"$" + content + b"*" + rng.choice((b"00", b"FF", b"5")) + b"\r\n", "nmea utf8 in id and field, wrong checksum"
 
 
 # ------------------------------------------------------------------------------------
@@ -519,14 +560,14 @@ def frame_any(rng, serial=None, mix=None, variant_fault=False, modes=None):
     return "rtcm", b, note
 
 
-def long_run(rng, n=None):
+def long_run(rng, n=None, styles=None):
     """
     A long homogeneous stretch of stream (>= 1000 tiny frames or several thousand noise bytes):
     what a reader meets when a whole protocol it filters out is streaming, or a link is idle/noisy.
     Returns (list of (kind, bytes, note)).
     """
     n = n or rng.choice((1100, 1600, 2600))
-    style = rng.choice(("nmea", "ubx", "rtcm", "alternate", "bad_ubx", "bad_nmea", "unknown_hdr", "noise", "rtcm_bad"))
+    style = rng.choice(styles or ("nmea", "ubx", "rtcm", "alternate", "bad_ubx", "bad_nmea", "unknown_hdr", "noise", "rtcm_bad"))
     tiny = {
         "nmea": ("nmea", b"$GPQQQ*46\r\n"),
         "ubx": ("ubx", wire.ubx_frame(0x05, 0x01, b"\x06\x01")),
@@ -551,6 +592,28 @@ def long_run(rng, n=None):
     tail = rng.choice(("nmea", "ubx", "rtcm"))
     out.append((tiny[tail][0], tiny[tail][1], "tail frame"))
     return out, style
+
+
+def giant_run(rng):
+    """
+    More back-to-back tiny frames of one kind than a 16-bit counter holds, then one frame of another
+    protocol: (kind, one frame's bytes, count, style, tail kind, tail bytes).  A receiver streaming one
+    protocol for an hour, read by an application that filters it out or rejects it.
+    """
+    tiny = {
+        "nmea": ("nmea", b"$GPQQQ*46\r\n"),
+        "ubx": ("ubx", wire.ubx_frame(0x05, 0x01, b"\x06\x01")),
+        "rtcm": ("rtcm", wire.rtcm_frame(bytes.fromhex("3ed00003"))),
+        "bad_ubx": ("ubx", wire.ubx_frame(0x05, 0x01, b"\x06\x01")[:-1] + b"\x00"),
+        "bad_nmea": ("nmea", b"$GPQQQ*00\r\n"),
+        "rtcm_bad": ("rtcm", wire.rtcm_frame(b"")),
+        "unknown_hdr": ("garbage", b"\xb5\x00"),
+    }
+    style = rng.choice(sorted(tiny))
+    kind, data = tiny[style]
+    count = rng.choice((65536, 65537, 66000, 70001))
+    tail = rng.choice([k for k in ("nmea", "ubx", "rtcm") if tiny[k][0] != kind] or ["nmea"])
+    return kind, data, count, style, tiny[tail][0], tiny[tail][1]
 
 
 def block_length(rng):
